@@ -48,7 +48,9 @@ def configs(ctx):
     return out
 
 
-KNOT_PAIRS = [(0.0, 1.0), (-3.5, 12.25), (1000.0, 1000.0009765625), (2.0, 2.0), (-1e6, 3e6), (5.0, -1.0)]
+# any offset / scale: unit, generic, narrow at a large offset, degenerate, huge, reversed, and tiny-but-non-zero ranges
+# (2^-40 and 5e-9: below every absolute closeness threshold a float comparison might use, yet a perfectly good range)
+KNOT_PAIRS = [(0.0, 1.0), (-3.5, 12.25), (1000.0, 1000.0009765625), (2.0, 2.0), (-1e6, 3e6), (5.0, -1.0), (0.0, 2.0 ** -40), (3e-9, 8e-9)]
 
 
 def xs_for(ctx, p, n, periodic, e0, e1, rng, lits):
